@@ -36,6 +36,7 @@ DIMS = [
     ("qname", ["q.graphql", "sub/q.v2.graphql"]),
     ("short_flags", [False, True]),
     ("preexisting", [False, True]),   # a longer file already sits at the destination (regeneration)
+    ("sname", ["schema.graphql", "schema.graphqls", "schema.gql", "schema.json"]),   # every schema file form the library reads
 ]
 
 
@@ -71,7 +72,7 @@ def library_options(cfg):
 
 def argv_for(cfg, root):
     short = cfg["short_flags"]
-    a = ["generate", "-s" if short else "--schema-path", os.path.join(root, "schema.graphql"), os.path.join(root, cfg["qname"])]
+    a = ["generate", "-s" if short else "--schema-path", os.path.join(root, cfg["sname"]), os.path.join(root, cfg["qname"])]
     if cfg["variables_derives"]:
         a += ["-I" if short else "--variables-derives", cfg["variables_derives"]]
     if cfg["response_derives"]:
@@ -124,6 +125,7 @@ def run(tier):
     build_workers()
     schema = space.core_schema()
     sdl = schema.sdl()
+    sjson = schema.introspection()
     doc = the_document()
     qtext = gql.render_doc(doc)
     base = os.path.join(WORK, "c19")
@@ -139,8 +141,8 @@ def run(tier):
         root = os.path.join(base, "r%05d" % i)
         os.makedirs(os.path.join(root, "sub"))
         os.makedirs(os.path.join(root, "out"))
-        with open(os.path.join(root, "schema.graphql"), "w") as f:
-            f.write(sdl)
+        with open(os.path.join(root, cfg["sname"]), "w") as f:
+            f.write(sjson if cfg["sname"].endswith(".json") else sdl)
         with open(os.path.join(root, cfg["qname"]), "w") as f:
             f.write(qtext)
         if cfg["preexisting"]:
@@ -157,7 +159,7 @@ def run(tier):
     # library side
     lib_reqs = []
     for cfg, res in zip(cfgs, results):
-        lib_reqs.append({"op": "gen", "schema_path": os.path.join(res["root"], "schema.graphql"),
+        lib_reqs.append({"op": "gen", "schema_path": os.path.join(res["root"], cfg["sname"]),
                          "query_path": os.path.join(res["root"], cfg["qname"]), "options": library_options(cfg)})
     lib = run_cases(lib_reqs)
     outcomes = {}
@@ -272,7 +274,7 @@ def run(tier):
     shutil.rmtree(base, ignore_errors=True)
     cov = {
         "evaluations": len(cfgs) + len(fail_cases), "distinct_nontrivial": len(distinct),
-        "rule": "success clause: every setting of 12 flag dimensions (derives, deprecation strategy incl. an invalid value, module "
+        "rule": "success clause: every setting of 14 dimensions (schema file form .graphql / .graphqls / .gql / .json, pre-existing output, derives, deprecation strategy incl. an invalid value, module "
                 "visibility, custom scalars module, other-variant, external enums, selected operation incl. a missing one, output "
                 "directory, formatting, query file name, short / long flag spelling) within deviation bound %d of the default "
                 "invocation; failure clause: up to %d instances of every invalidating edit kind of C06, an unparsable query, missing "
